@@ -201,7 +201,7 @@ struct World
   std::mutex m;
   std::condition_variable cv;
   std::vector<Ev> log;
-  uint64_t nData = 0, nWire = 0;
+  uint64_t nData = 0, nWire = 0, nSendErr = 0;
   std::set<uint64_t> cbConnected, cbClosed;
   struct Acc { uint64_t sid; std::string peer, local; };
   std::vector<Acc> newAccepts;
@@ -211,6 +211,7 @@ struct World
     e.t = vf::nowNs();
     if (e.k == Ev::DATA) nData++;
     if (e.k == Ev::WIRE) nWire++;
+    if (e.k == Ev::ERR && e.bytes.rfind("sendto:", 0) == 0) nSendErr++; // a queued datagram the kernel refused for good
     log.push_back(std::move(e));
     cv.notify_all();
     return log.size() - 1;
@@ -452,7 +453,9 @@ struct Hist
     W.log[pr.at].rc = ok ? 1 : 0;
   }
   uint64_t dataCount() { std::lock_guard<std::mutex> g(W.m); return W.nData; }
-  uint64_t wireCount() { std::lock_guard<std::mutex> g(W.m); return W.nWire; }
+  // datagrams seen by the raw peers plus queued datagrams the engine reported as refused by the kernel:
+  // both settle one pending send (pacing only; the checker does not use this)
+  uint64_t wireCount() { std::lock_guard<std::mutex> g(W.m); return W.nWire + W.nSendErr; }
   // the first undelivered datagram of a history sits out the full watchdog; once something is missing the
   // event count is off for good, so later waits of the same history are kept short (the offline checker
   // judges from the complete log, and a loss only counts when an isolated re-run reproduces it)
@@ -477,11 +480,11 @@ struct Hist
   void waitWire(uint64_t target, double ms, const char *label, const std::vector<uint64_t> &sids = {})
   {
     bool done = W.waitFor(ms * waitScale, [&] {
-      if (W.nWire >= target) return true;
+      if (W.nWire + W.nSendErr >= target) return true;
       for (auto sid : sids) if (W.cbClosed.count(sid)) return true;
       return false;
     });
-    bool all = W.waitFor(done ? 100 : 0, [&] { return W.nWire >= target; });
+    bool all = W.waitFor(done ? 100 : 0, [&] { return W.nWire + W.nSendErr >= target; });
     if (!all) feat[done ? "wire_wait_cut_short_by_session_close" : "wire_wait_timed_out"]++;
     if (!all && verbose) fprintf(stderr, "-- wire wait %s: history %llu step %s limit %.0f ms, %llu of %llu datagrams seen\n", done ? "cut short by a session close" : "timed out",
                                  (unsigned long long)idx, label, ms, (unsigned long long)wireCount(), (unsigned long long)target);
